@@ -99,6 +99,33 @@ for _k in list(NOT_YET):
     if _k in CHECKS:
         del NOT_YET[_k]
 
+CHECKS.update({
+    "C13": dict(
+        text="Seeded traces replayed through the real reader and WorkloadTrace with the tick counter as clock (jumped over "
+             "idle gaps), grid sweeps of consecutive ticks at 12 tick rates, and gentrace round trips of the real generator; "
+             "exact-decimal oracle for the delivery tick. Known findings D9a/D9b (on-grid arrivals one tick late) are matched "
+             "on their exact mechanism; any other deviation is a violation.",
+        note="Inside the 1e-9 band above a tick boundary both neighbouring ticks are accepted unless the value is exactly "
+             "on the grid as a decimal or was written by gentrace.", ref="DESIGN 4/C13"),
+    "C14": dict(
+        text="Seeded write->read and read->write round trips through the real CSV writer/reader/trace generator and "
+             "storage-fault injection (one format violation per file, at reader level and through WorkloadTrace).",
+        note="Round-trip clauses are pure functions of the input; claimed as exploration with that caveat.", ref="DESIGN 4/C14"),
+    "C15": dict(
+        text="The real generator stepped over seeds x parameter sets; strict structural oracle per emitted pipeline, "
+             "statistical oracles (class frequencies, mean operator count, mean gap, cpu_io_ratio shift) with per-check "
+             "false-alarm probability < 1e-12.",
+        note="Statistical clauses only evaluated above stated sample sizes.", ref="DESIGN 4/C15"),
+    "C20": dict(
+        text="Seeded traces through the real snap and jitter commands on temporary files (bounds, idempotence, "
+             "reproducibility, stability, untouched cells, replay of snapped traces) and the real sensitivity-sample "
+             "fan-out with an in-process worker pool.",
+        note="snap/jitter arithmetic is a pure function; on-grid = within 1e-9 relative of a tick boundary.", ref="DESIGN 4/C20"),
+})
+for _k in list(NOT_YET):
+    if _k in CHECKS:
+        del NOT_YET[_k]
+
 
 def main():
     checks = []
